@@ -709,6 +709,9 @@ def regenerate(repo: str = REPO) -> Dict[str, List[str]]:
     write_if_changed(os.path.join(GEN_DIR, "Attrs.lean"), text)
     report["Attrs"] = errs
     report["_attr_table"] = table  # type: ignore
+    text, errs = gen_ctor(repo)
+    write_if_changed(os.path.join(GEN_DIR, "Ctor.lean"), text)
+    report["Ctor"] = errs
     return report
 
 
@@ -1027,6 +1030,88 @@ def gen_attrs(repo: str = REPO) -> Tuple[str, Dict[str, Dict[str, Optional[str]]
         out += f"def {pe.ns}.noneNames : List String := [" + ", ".join(f'"{n}"' for n in nones) + "]\n\n"
     out += "end Gen\n"
     return out, table, errors
+
+
+# ------------------------------------------------------------------------------------------
+# region: SpectrumAnalyzer.__init__ — the buffer operations applied to the caller's data
+# ------------------------------------------------------------------------------------------
+CTOR_HEADER = """/-
+  GENERATED by /verif/vk/translate.py from {src} (sha256 {sha}).
+  The sequence of array operations `SpectrumAnalyzer.__init__` applies to the caller's data, per input rank,
+  as `Model.HeapOp`s (aliasing semantics in Model/Analyzer.lean).  Do not edit.
+-/
+import SpecKitV.Model.Analyzer
+
+namespace Gen
+open Model
+
+"""
+
+
+def _ctor_ops(stmts: List[ast.stmt]) -> List[str]:
+    ops: List[str] = []
+    for st in stmts:
+        for n in ast.walk(st):
+            if isinstance(n, ast.Call):
+                fn = ast.unparse(n.func)
+                if fn == "np.ascontiguousarray":
+                    if not any(k.arg == "dtype" and ast.unparse(k.value) == "np.float64" for k in n.keywords):
+                        raise Unsupported(f"line {n.lineno}: ascontiguousarray without dtype=np.float64")
+                    ops.append((n.lineno, "ascontig64"))
+                elif fn == "np.nan_to_num":
+                    copy = [ast.unparse(k.value) for k in n.keywords if k.arg == "copy"]
+                    if ast.unparse(n.args[0]) != "self.data":
+                        raise Unsupported(f"line {n.lineno}: nan_to_num of {ast.unparse(n.args[0])}")
+                    inplace = (copy == ["False"])
+                    ops.append((n.lineno, "nanToNumInPlace" if inplace else "nanToNumCopy"))
+                elif fn in ("np.copy", "np.array") or fn.endswith(".copy"):
+                    ops.append((n.lineno, "nanToNumCopy"))   # a fresh buffer: same aliasing effect as a copying sanitiser
+            if isinstance(n, ast.Subscript) and isinstance(n.ctx, ast.Store) and ast.unparse(n.value) in ("self.data", "x", "data", "data_2n"):
+                ops.append((n.lineno, "nanToNumInPlace"))       # any element store into the (possibly aliased) buffer
+    return [o for _, o in sorted(set(ops))]
+
+
+def gen_ctor(repo: str = REPO) -> Tuple[str, List[str]]:
+    path = os.path.join(repo, "speckit/analysis.py")
+    out = CTOR_HEADER.format(src="speckit/analysis.py", sha=sha_of(path))
+    try:
+        tree = ast.parse(open(path).read())
+        init = None
+        for c in ast.walk(tree):
+            if isinstance(c, ast.ClassDef) and c.name == "SpectrumAnalyzer":
+                for f in c.body:
+                    if isinstance(f, ast.FunctionDef) and f.name == "__init__":
+                        init = f
+        if init is None:
+            raise Unsupported("SpectrumAnalyzer.__init__ not found")
+        branch2d = branch1d = None
+        pre: List[ast.stmt] = []
+        for st in init.body:
+            if isinstance(st, ast.If) and "x.ndim == 2" in ast.unparse(st.test):
+                branch2d = st.body
+                for el in st.orelse:
+                    if isinstance(el, ast.If) and "x.ndim == 1" in ast.unparse(el.test):
+                        branch1d = el.body
+                break
+            pre.append(st)
+        if branch2d is None or branch1d is None:
+            raise Unsupported("constructor: rank dispatch not recognised")
+        if not any(isinstance(st, ast.Assign) and ast.unparse(st.value) == "np.asarray(data)" for st in pre):
+            raise Unsupported("constructor: x = np.asarray(data) not found")
+        ops1 = ["asarray"] + _ctor_ops(branch1d)
+        ops2 = _ctor_ops(branch2d)
+        uses_T = any(isinstance(n, ast.Attribute) and n.attr == "T" for st in branch2d for n in ast.walk(st))
+        ops2r = ["asarray"] + ops2
+        ops2t = ["asarray"] + (["transposeView"] if uses_T else []) + ops2
+        fmt = lambda l: "[" + ", ".join("HeapOp." + o for o in l) + "]"
+        out += f"/-- 1-D input -/\ndef ctorOps1D : List HeapOp := {fmt(ops1)}\n\n"
+        out += f"/-- 2×N input (rows are channels) -/\ndef ctorOps2DRows : List HeapOp := {fmt(ops2r)}\n\n"
+        out += f"/-- N×2 input (transposed view first) -/\ndef ctorOps2DCols : List HeapOp := {fmt(ops2t)}\n\n"
+        out += "end Gen\n"
+        return out, []
+    except Unsupported as ex:
+        msg = str(ex).replace("-/", "- /")
+        return out + f"/- UNSUPPORTED ctor: {msg} -/\ndef ctor_UNSUPPORTED : Nat := translation_failed_ctor\nend Gen\n", [str(ex)]
 
 
 if __name__ == "__main__":
